@@ -200,6 +200,14 @@ def compare(I, op, a, b, node):
             r = a == b
         elif isinstance(a, (PObj, PList, PDict)) or isinstance(b, (PObj, PList, PDict)):
             r = a is b
+        elif isinstance(a, SStr) and isinstance(b, SStr):
+            r = a is b or a.t.eq(b.t)  # the same symbolic value flowed here
+        elif isinstance(a, z3.ExprRef) and isinstance(b, z3.ExprRef) and not isinstance(a, z3.BoolRef):
+            r = a.eq(b)
+        elif isinstance(a, (SStr, str)) and isinstance(b, (SStr, str)):
+            r = values_equal(a, b)
+        elif isinstance(a, z3.BoolRef) and isinstance(b, z3.BoolRef) and a.eq(b):
+            r = True
         elif isinstance(a, z3.BoolRef) or isinstance(b, z3.BoolRef):
             r = values_equal(a, b) if (isinstance(a, (bool, z3.BoolRef)) and isinstance(b, (bool, z3.BoolRef))) else False
             if r is not False:
